@@ -1733,8 +1733,10 @@ fn scale_one(shape0: &str, n: usize, sink_on: bool) -> String {
     // drop: nothing may be destroyed by it (C01 at scale); the group dies with the second drop
     // "+near": the held member is close to the member whose handle is dropped (5 steps away)
     let near = shape0.ends_with("+near");
-    let held = shape0.ends_with("+held") || near;
-    let shape = shape0.trim_end_matches("+held").trim_end_matches("+near");
+    // "+same": the surviving handle is a second handle to the very member whose handle is dropped
+    let same = shape0.ends_with("+same");
+    let held = shape0.ends_with("+held") || near || same;
+    let shape = shape0.trim_end_matches("+held").trim_end_matches("+near").trim_end_matches("+same");
     let w = world();
     reset_world(w);
     w.quiet = true;
@@ -1823,7 +1825,7 @@ fn scale_one(shape0: &str, n: usize, sink_on: bool) -> String {
     let keep = nodes[0].take().unwrap();
     let weak0 = Rc::downgrade(&keep);
     let weakl = Rc::downgrade(&*tmp(n - 1));
-    let extra = if held { Some(Rc::clone(&*tmp(if near { 5.min(n - 1) } else { n / 2 }))) } else { None };
+    let extra = if held { Some(Rc::clone(&*tmp(if same { 0 } else if near { 5.min(n - 1) } else { n / 2 }))) } else { None };
     unsafe {
         SCALE = ScaleCnt::default();
         SCALE.quiet_hdrop = true;
